@@ -59,8 +59,11 @@ type loadOpts struct {
 func load(o loadOpts) *World {
 	env := append(os.Environ(), "GOWORK=off", "GOFLAGS=-mod=mod", "GOPROXY=off", "GOSUMDB=off", "GOTOOLCHAIN=local")
 	env = append(env, o.env...)
-	// loops over literal tables of functions are analysed in their unrolled form (normalize.go); in memory only
+	// loops over literal tables of functions and go/defer trampolines are analysed in normalised form (normalize.go,
+	// normalize2.go); in memory only. If the normalised program does not type-check (an import used only by a removed
+	// literal, say), the program is loaded as written and the note says so.
 	var normNotes []string
+	orig := o.overlay
 	if abs, err := filepath.Abs(o.repo); err == nil {
 		o.overlay, normNotes = normalizeRepo(abs, o.overlay)
 		if d := os.Getenv("XNORMDUMP"); d != "" {
@@ -69,19 +72,40 @@ func load(o loadOpts) *World {
 			}
 		}
 	}
-	cfg := &packages.Config{
-		Mode:    packages.LoadAllSyntax,
-		Dir:     o.repo,
-		Env:     env,
-		Tests:   o.tests,
-		Overlay: o.overlay,
+	loadWith := func(ov map[string][]byte) ([]*packages.Package, string) {
+		cfg := &packages.Config{
+			Mode:    packages.LoadAllSyntax,
+			Dir:     o.repo,
+			Env:     env,
+			Tests:   o.tests,
+			Overlay: ov,
+		}
+		pkgs, err := packages.Load(cfg, "./...")
+		if err != nil {
+			return nil, fmt.Sprintf("load: %v", err)
+		}
+		if len(pkgs) == 0 {
+			return nil, "load: zero packages"
+		}
+		for _, p := range pkgs {
+			for _, e := range p.Errors {
+				return nil, fmt.Sprintf("load: %s: %v", p.PkgPath, e)
+			}
+			if p.IllTyped {
+				return nil, fmt.Sprintf("load: %s is ill-typed", p.PkgPath)
+			}
+		}
+		return pkgs, ""
 	}
-	pkgs, err := packages.Load(cfg, "./...")
-	if err != nil {
-		die("load: %v", err)
+	pkgs, msg := loadWith(o.overlay)
+	if msg != "" && len(normNotes) > 0 {
+		first := msg
+		if pkgs, msg = loadWith(orig); msg == "" {
+			normNotes = []string{"normalisation abandoned, program analysed as written: the normalised form does not type-check (" + first + ")"}
+		}
 	}
-	if len(pkgs) == 0 {
-		die("load: zero packages")
+	if msg != "" {
+		die("%s", msg)
 	}
 	w := &World{Normalised: normNotes, Repo: o.repo, Pkgs: map[string]*packages.Package{}, SPkgs: map[string]*ssa.Package{}, ByKey: map[string]*ssa.Function{}, TestSupport: map[*ssa.Function]bool{}}
 	var roots []*packages.Package
